@@ -61,6 +61,10 @@ type inst struct {
 	sizes      types.Sizes
 	an         *analysis
 	concFile   bool
+	// facts about method-call receivers recorded before their sub-expressions are rewritten
+	recvTV     map[*ast.SelectorExpr]types.TypeAndValue
+	recvShared map[*ast.SelectorExpr]bool
+	recvLocal  map[*ast.SelectorExpr]bool
 }
 
 // analysis holds whole-module facts computed before any rewriting.
@@ -205,6 +209,9 @@ func (in *inst) doFile(f *ast.File, fn string) error {
 	in.skipSend = map[*ast.SendStmt]bool{}
 	in.writeRoots = map[ast.Node]bool{}
 	in.noShared = map[ast.Node]bool{}
+	in.recvTV = map[*ast.SelectorExpr]types.TypeAndValue{}
+	in.recvShared = map[*ast.SelectorExpr]bool{}
+	in.recvLocal = map[*ast.SelectorExpr]bool{}
 
 	in.concFile = false
 	ast.Inspect(f, func(n ast.Node) bool {
@@ -537,6 +544,14 @@ func (in *inst) rewriteBody(body *ast.BlockStmt) {
 			if c.Index() >= 0 && len(n.Lhs) == 1 && len(n.Rhs) == 1 && n.Tok != token.DEFINE {
 				if r := in.splitRMW(n.Lhs[0], n.Tok, n.Rhs[0], n); r != nil {
 					c.Replace(r)
+				}
+			}
+		case *ast.CallExpr:
+			if se, ok := n.Fun.(*ast.SelectorExpr); ok {
+				if tv, ok := in.info.Types[se.X]; ok {
+					in.recvTV[se] = tv
+					in.recvShared[se] = in.rootIsShared(se.X)
+					in.recvLocal[se] = in.localValue(se.X)
 				}
 			}
 		case *ast.KeyValueExpr:
@@ -1007,13 +1022,13 @@ func (in *inst) callExpr(ce *ast.CallExpr, parent ast.Node) ast.Expr {
 		return nil
 	}
 	lib := in.isLibPkg(fn.Pkg())
-	if lib && !in.concFile && !in.rootIsShared(se.X) {
+	if lib && !in.concFile && !in.recvShared[se] {
 		return nil
 	}
-	if in.localValue(se.X) {
+	if in.recvLocal[se] {
 		return nil
 	}
-	tv, ok := in.info.Types[se.X]
+	tv, ok := in.recvTV[se]
 	if !ok {
 		return nil
 	}
@@ -1243,6 +1258,13 @@ func (an *analysis) methodClass(fn *types.Func, named *types.Named, modPath stri
 func (in *inst) recvPtr(se *ast.SelectorExpr, sel *types.Selection) ast.Expr {
 	x := se.X
 	t := in.info.TypeOf(x)
+	if t == nil {
+		// the receiver expression was already rewritten (e.g. a package-level variable wrapped
+		// in a shared-access gate): use the type recorded before rewriting
+		if tv, ok := in.recvTV[se]; ok {
+			t = tv.Type
+		}
+	}
 	if t == nil {
 		return nil
 	}
